@@ -31,8 +31,10 @@ class Ref:
     every subscriber present at an emission receives it, in subscription order; once the
     last subscriber of a `share` has left, nothing is delivered and the upstream is not run."""
 
-    def __init__(self, kind, src):
+    def __init__(self, kind, src, never_release=False):
         self.kind = kind
+        # never_release: the behaviour of the code as recorded in the known finding (the connection is kept for ever)
+        self.never_release = never_release
         self.cold = [x for x in src[1:]] if src[0] == "iter" else None
         self.connected = False
         self.wired = False          # connected to the hot source while it was alive
@@ -80,7 +82,7 @@ class Ref:
             u = self.handle.pop(k, None)
             if u is not None:
                 self.present = [(x, l) for x, l in self.present if x != u]
-                if self.kind == "share" and self.connected and not self.present:
+                if self.kind == "share" and self.connected and not self.present and not self.never_release:
                     self.released = True
         elif ev[0] == "connect":
             if self.kind == "publish" and not self.connected:
@@ -110,6 +112,10 @@ class C11(Prop):
         "RxModel.GenTie.PinsShare": [],
         # share / publish translated: first subscribe = register then connect, later ones register only; source subscribed once
         "RxModel.GenTie.Share": [],
+        # the inner subject of publish / share: what `is_empty` counts (closed subscribers are NOT pruned by an emission)
+        # is what RefCountSubscription::unsubscribe decides on
+        "RxModel.GenTie.Subject": [], "RxModel.GenTie.SubjectThreads": [],
+        "RxModel.GenTie.Subscriber": [], "RxModel.GenTie.SubscriberThreads": [],
     }
     rule = ("bounded-exhaustive histories over {sub k, unsub k (k<3, labels introduced in order), emit next / "
             "complete / error on the hot source, connect (publish)}: every history up to the tier's length "
@@ -215,6 +221,30 @@ class C11(Prop):
                     evs.append(["q"])
             out.append(mk_case(kind, rng.choice(("local", "threads")), src, evs + [["q"]],
                                {"kind": "random-" + kind}))
+        # churn around a subscriber that has finished by itself: it joins (as an ordinary or as a finished observer), items
+        # flow, others join and leave BETWEEN two emissions, it leaves last — and a late joiner must still be served by the
+        # connected multicast (seed C11-9: the subject compacted its list when newcomers moved in, became really empty,
+        # and the last RefCountSubscription tore the inner subject down under a still-connected share)
+        for kind in ("share", "publish"):
+            for first in ("subfin", "sub"):
+                for churn in (0, 1, 2):
+                    for mid_emit in (False, True):
+                        for leave in (True, False):
+                            for fl in ("local", "threads"):
+                                evs, val = ([["connect"]] if kind == "publish" else []) + [[first, "0"]], 0
+                                val += 1; evs.append(["emit", "0", N(val)])
+                                for _ in range(churn):
+                                    evs += [["sub", "1"], ["unsub", "1"]]
+                                    if mid_emit:
+                                        val += 1; evs.append(["emit", "0", N(val)])
+                                val += 1; evs.append(["emit", "0", N(val)])
+                                if leave:
+                                    evs.append(["unsub", "0"])
+                                evs.append(["sub", "2"])
+                                for _ in range(2):
+                                    val += 1; evs.append(["emit", "0", N(val)])
+                                evs += [["q"], ["emit", "0", "c"], ["q"]]
+                                out.append(mk_case(kind, fl, ["hot"], evs, {"kind": kind + "-churn"}))
         # interleave (the runner shrinks only the first few hundred failures)
         rng.shuffle(out)
         return out + self.lock_cases(tier, seed)
@@ -240,6 +270,9 @@ class C11(Prop):
             return c06.lock_oracle(case, lines)
         kind = case.field("kind")[0]
         ref = Ref(kind, case.field("src")[0])
+        # what the recorded finding ("share never releases its source") makes of the same history: a deviation after the
+        # release is THAT finding only if it is exactly this behaviour — anything else is a different violation
+        kept = Ref(kind, case.field("src")[0], never_release=True)
         for k, ev in enumerate(case.events):
             body = lines.get(k)
             if body is None:
@@ -248,6 +281,7 @@ class C11(Prop):
                 return {"kind": "panic", "event": k, "detail": "panic inside the library"}
             was_released = ref.released
             exp = ref.step(ev)
+            exp_kept = kept.step(ev)
             parts = dict(p.split("=", 1) for p in body.split(" "))
             if ev[0] == "q":
                 s, t, d = int(parts["srcsubs"]), int(parts["tap"]), None
@@ -264,8 +298,10 @@ class C11(Prop):
                     kd = "source-subscription-count"
                 return {"kind": kd, "event": k, "detail": f"source subscriptions {s}, want {ref.s}"}
             if d is not None and d != exp:
-                if was_released or ref.released:
+                if (was_released or ref.released) and d == exp_kept:
                     kd = "release-delivery"
+                elif was_released or ref.released:
+                    kd = "release-other-delivery"
                 elif [x for x in exp if x not in d]:
                     kd = "multicast-missing"
                 elif sorted(d) == sorted(exp):
@@ -274,7 +310,8 @@ class C11(Prop):
                     kd = "multicast-extra"
                 return {"kind": kd, "event": k, "detail": f"deliveries {d}, want {exp}"}
             if t != ref.t:
-                kd = "release-upstream" if (was_released or ref.released) else "tap-count"
+                rel = was_released or ref.released
+                kd = ("release-upstream" if t == kept.t else "release-other-upstream") if rel else "tap-count"
                 return {"kind": kd, "event": k,
                         "detail": f"upstream tap ran {t} times, want {ref.t}"
                                   + (" (all subscribers of the share have unsubscribed)" if ref.released else "")}
